@@ -202,6 +202,17 @@ def mon_c07(run, case, stmts):
         k = (e["inv"], e["path"])
         if k in seen_entry and k in last_park and last_park[k]["clk"] < e["clk"]:
             o = last_park[k]
+            # not when an ENCLOSING branch (which had its own wake source, e.g. a sibling's timer) was run again in
+            # between: then the whole inner map/parallel, parked branches included, is legitimately traversed again
+            anc, outer_rerun = parent_path(e["path"]), False
+            while anc:
+                if any(x["kind"] == "branch" and x["inv"] == e["inv"] and x["path"] == anc and o["clk"] < x["clk"] < e["clk"] for x in run.entries):
+                    outer_rerun = True
+                    break
+                anc = parent_path(anc)
+            if outer_rerun:
+                seen_entry[k] = e
+                continue
             op = run.backend.ops.get(run.backend.by_path.get(o["path"].split("#")[0], ""), {})
             if op.get("Status") == "STARTED":
                 run.v("C07", "parked_branch_rerun_without_wake_source", o["kind"],
